@@ -380,34 +380,44 @@ pub fn reply_matches(want: &Reply, got: &OutRec, max_conns: &str) -> Result<(), 
 /// Compares a decoded reply list against the model's, honouring the empty-GetValues tolerance.
 /// Returns Ok(number matched) or the first discrepancy.
 pub fn replies_match(want: &[ModelReply], got: &[OutRec], max_conns: &str) -> Result<usize, String> {
-    let mut gi = 0usize;
+    // positions in `got` reachable after accounting for want[..wi]; optional replies
+    // (empty-body GetValues) may or may not have produced a record
+    let mut reach: Vec<usize> = vec![0];
+    let mut last_err = String::new();
     for (wi, w) in want.iter().enumerate() {
         let optional = matches!(&w.reply, Reply::Values { empty_body: true, .. });
-        match got.get(gi) {
-            Some(g) => match reply_matches(&w.reply, g, max_conns) {
-                Ok(()) => gi += 1,
-                Err(e) => {
-                    if optional {
-                        continue;
+        let mut next: Vec<usize> = Vec::new();
+        for &gi in &reach {
+            if optional && !next.contains(&gi) {
+                next.push(gi);
+            }
+            match got.get(gi) {
+                Some(g) => match reply_matches(&w.reply, g, max_conns) {
+                    Ok(()) => {
+                        if !next.contains(&(gi + 1)) {
+                            next.push(gi + 1);
+                        }
                     }
-                    return Err(format!("reply #{wi} (for record at offset {}): {e}", w.src_off));
+                    Err(e) => last_err = format!("reply #{wi} (for record at offset {}): {e}", w.src_off),
+                },
+                None => {
+                    last_err = format!(
+                        "reply #{wi} (for record at offset {}) missing: expected {:?}, output has only {} record(s)",
+                        w.src_off,
+                        w.reply,
+                        got.len()
+                    );
                 }
-            },
-            None => {
-                if optional {
-                    continue;
-                }
-                return Err(format!(
-                    "reply #{wi} (for record at offset {}) missing: expected {:?}, output has only {} record(s)",
-                    w.src_off,
-                    w.reply,
-                    got.len()
-                ));
             }
         }
+        if next.is_empty() {
+            return Err(last_err);
+        }
+        reach = next;
     }
-    if gi != got.len() {
-        return Err(format!("unexpected extra output record #{gi}: {:?}", got[gi]));
+    if reach.contains(&got.len()) {
+        return Ok(got.len());
     }
-    Ok(gi)
+    let gi = reach.iter().copied().max().unwrap_or(0);
+    Err(format!("unexpected extra output record #{gi}: {:?}", got.get(gi)))
 }
